@@ -29,6 +29,12 @@ Violation keys (one per class):  wrap:<class> / rst:<class>  e.g. wrap:first-lin
             fixws:<clause>:<source kind>;  embed:<class>:<origin>:<module>  e.g.
             embed:triple-quote:message:types/tx.py, embed:trailing-backslash:service:services/svc/client.py,
             embed:trailing-quote:service:services/svc/client.py.
+Source format: rst() is also called with source_format="rst" (the Returns: sections; width 72, indent 16); on the wrap
+            route the words clause demands the text back unchanged up to re-wrapping, backslashes included
+            (rst:backslashes:source-rst); rst-format input is not sent down the converter route (a real converter
+            legitimately consumes its escapes).  The comment of the RESPONSE message is planted too (origin "response",
+            standard and Ads template sets) and the Returns: section of the sync / asyncio / Ads client methods is compared
+            word for word with it: embed:<class>:message:response-comment/[ads/]<module>.
 Fixed corner set (both tiers, CornerTexts of Text.tla): for every markup character a comment that takes the converter
             route of rst() and ends in a double quote, on one line / two lines / with a blank line: run through rst()
             with the converter parameter tuples, and planted at every origin (quick: the one-line *gadgets* text).
